@@ -102,4 +102,81 @@ InLatticeMirror(P) == \E r \in Improper : \A k \in DOMAIN P : MatVec(r, VSub(P[k
 
 \* the rigid motion fitting M = g(P) + t onto P is unique iff P has rank >= 2
 FitUnique(P) == Rank(P) >= 2
+
+(* ------------------------------------------------------------------ forms of the coordinates *)
+(* Coordinates reach superimpose() / apply() in different FORMS: ndarrays of any numeric dtype
+   (the apply() docstring itself uses np.arange), contiguous or not, or AtomArray /
+   AtomArrayStack.  The property quantifies over the point sets, not over their
+   representation: every expected value of this module is independent of the form
+   (FormIndependent is the explicit claim; the families carry the form as an input).
+     f16 f32 f64  floating ndarrays        i32 i64   integer ndarrays (grid coordinates)
+     f32s         non-contiguous view (every second row of a larger buffer)
+     f64F         Fortran-ordered          i64s      integer view with a stride in the last axis
+     atoms        AtomArray (depth 0) / AtomArrayStack (depth >= 1)
+   Dom_Form: an integer form can only hold integer coordinates.  Values given as numerators
+   over a denominator `den` (den = 2: half ticks, still exact in every float type) are
+   representable in a form iff the form is not an integer one or every value is a multiple
+   of den. *)
+Forms == <<"f32", "f64", "f16", "i32", "i64", "atoms", "f32s", "f64F", "i64s">>
+IntForm(f) == f \in {"i32", "i64", "i64s"}
+AllMultiples(models, den) == \A j \in DOMAIN models : \A k \in DOMAIN models[j] : \A i \in 1..3 : models[j][k][i] % den = 0
+Dom_Form(f, models, den) == IntForm(f) => AllMultiples(models, den)
+
+(* numerators over den: the real transformation has centre c/den and target t/den (the
+   rotation is not scaled); den * as_matrix() = [[den R, R c + t], [0, den]] and
+   den * apply(x) = R (den x + c) + t *)
+AsMatrixScaled(T, den) ==
+  LET A == AsMatrix(T) IN
+  [i \in 1..4 |-> [j \in 1..4 |-> IF j <= 3 THEN den * A[i][j] ELSE IF i <= 3 THEN A[i][4] ELSE den]]
+ScaleModels(den, models) == [j \in DOMAIN models |-> [k \in DOMAIN models[j] |-> VScale(den, models[j][k])]]
+
+(* ------------------------------------------------------------------ histories on one object *)
+(* An AffineTransformation is an object with the attributes center_translation, rotation,
+   target_translation and NO other state: the result of apply() / as_matrix() is a function of
+   the current attributes only.  It does not depend on earlier accessor calls, and editing an
+   array that an accessor returned ("scr": the caller scribbles on the last result in place)
+   changes nothing.  Operations of a history:
+     "mat"   as_matrix()                 "app"   apply(X)
+     "scr"   the last returned array is overwritten in place by the caller
+     "setR"  rotation           := Q . rotation            (attribute re-assigned)
+     "sett"  target_translation := target_translation + dT (attribute re-assigned)
+     "incc"  center_translation[first model] += dC          (attribute edited in place) *)
+HistOpSet == {"mat", "app", "scr", "setR", "sett", "incc"}
+IsAccessor(op) == op \in {"mat", "app"}
+HistQ  == <<<<0, 0, 1>>, <<1, 0, 0>>, <<0, 1, 0>>>>        \* a third turn about (1,1,1)
+HistDT == <<3, -1, 4>>
+HistDC == <<1, 0, 2>>
+HistEdit(Ts, op) ==
+  CASE op = "setR" -> [j \in DOMAIN Ts |-> Xf(Ts[j].c, MatMul(HistQ, Ts[j].R), Ts[j].t)]
+    [] op = "sett" -> [j \in DOMAIN Ts |-> Xf(Ts[j].c, Ts[j].R, VAdd(Ts[j].t, VAdd(HistDT, <<j, 0, 0>>)))]
+    [] op = "incc" -> [j \in DOMAIN Ts |-> IF j = 1 THEN Xf(VAdd(Ts[j].c, HistDC), Ts[j].R, Ts[j].t) ELSE Ts[j]]
+    [] OTHER -> Ts
+\* what the accessor must return in the state Ts (numerators over den)
+HistResult(Ts, op, models, den) ==
+  CASE op = "mat" -> [j \in DOMAIN Ts |-> Mat4Tup(AsMatrixScaled(Ts[j], den))]
+    [] op = "app" -> ApplyModels(Ts, ScaleModels(den, models))
+    [] OTHER -> <<>>
+
+(* ------------------------------------------------------------------ anchors of the homolog variant *)
+(* superimpose_homologs chooses the initial anchors in one of two ways (documented):
+   residue pairs of the sequence alignment with a POSITIVE substitution score, or - when fewer
+   than min_anchors such pairs exist - all backbone atoms one-to-one in the given order
+   ("fallback"; refused when the two structures have different numbers of backbone atoms).
+   The alignment itself is C08's subject; decided here is only what does not need it:
+     no residue pair scores positively  -> 0 < min_anchors alignment anchors -> fallback
+     identical sequences                -> the identity alignment is the unique optimum
+                                           (every self score is the row maximum and positive)
+   In both cases residue i is paired with residue i, so the reported anchor lists must be
+   equal position by position, whatever the outlier removal drops afterwards.
+   PosScore is the sign pattern of BLOSUM62 on the residues of the synthetic CCD (bound to the
+   real matrix by the driver). *)
+Residues == {"ALA", "GLY", "SER"}
+PosScore(a, b) == a = b \/ {a, b} = {"ALA", "SER"}
+PosPairs(sF, sM) == {<<i, j>> \in (DOMAIN sF) \X (DOMAIN sM) : PosScore(sF[i], sM[j])}
+HomologPath(sF, sM, minA) ==
+  IF Len(sF) < minA \/ Len(sM) < minA THEN "open"          \* (the code refuses; not documented)
+  ELSE IF PosPairs(sF, sM) = {} THEN (IF Len(sF) = Len(sM) THEN "fallback" ELSE "Rejected")
+  ELSE IF sF = sM THEN "identity"
+  ELSE "open"
+PairedByPosition(path) == path \in {"fallback", "identity"}
 =============================================================================
